@@ -155,10 +155,25 @@ fn run_c21_plan(plan: &c21::Plan) -> Result<ChildResult, String> {
         }
         reopen_no += 1;
         // acknowledged operations of this incarnation
-        let acked: BTreeSet<usize> = std::fs::read_to_string(dir.join(format!("acked.{}", i))).unwrap_or_default().lines().filter_map(|l| l.parse().ok()).collect();
+        let mut acked: BTreeSet<usize> = std::fs::read_to_string(dir.join(format!("acked.{}", i))).unwrap_or_default().lines().filter_map(|l| l.parse().ok()).collect();
+        // acknowledgements also arrive on stdout (the file may be unwritable while the disk-full fault is active)
+        acked.extend(out.lines().filter_map(|l| l.strip_prefix("ACK ")).filter_map(|l| l.trim().parse::<usize>().ok()));
+        let mut disk_full = false;
         for (k, op) in inc.ops.iter().enumerate() {
+            if let c21::Op::FileSizeLimit { limit } = op {
+                disk_full = *limit != u64::MAX;
+                *res.stats.entry("fault.disk_full".into()).or_insert(0) += disk_full as u64;
+                continue;
+            }
             if acked.contains(&k) {
+                // an operation acknowledged while the disk was full counts as acknowledged like any other
+                if disk_full {
+                    *res.stats.entry("acked_while_disk_full".into()).or_insert(0) += 1;
+                }
                 model.apply(plan.seed, op);
+            } else if disk_full {
+                // the injected fault may make the operation fail; a failed operation is not acknowledged
+                *res.stats.entry("failed_while_disk_full".into()).or_insert(0) += 1;
             } else {
                 res.findings.push(Finding { rule: "c21.op_failed".into(), detail: format!("incarnation {} op {} {:?} was not acknowledged", i, k, op), facts: BTreeMap::new() });
             }
